@@ -202,6 +202,13 @@ func gen(r *hx.Rand, tier string) []json.RawMessage {
 		in.Ops = g.ops
 		out = append(out, hx.J(in))
 	}
+	// exact tick-level tie of the ideal controller's control path
+	for i := 0; i < 2*per; i++ {
+		rr := r.Fork()
+		in := input{Agent: "idealmemcontroller", Exact: true, Buf: 1 + rr.Intn(3), Delays: []int{1}, Cfg: randCfg(rr, "idealmemcontroller")}
+		in.Ops = genScript(rr, "idealmemcontroller", 1+rr.Intn(5))
+		out = append(out, hx.J(in))
+	}
 	for i := 0; i < per; i++ {
 		for _, a := range Agents {
 			rr := r.Fork()
@@ -240,7 +247,7 @@ func shrink(raw json.RawMessage) []json.RawMessage {
 func init() {
 	hx.Register(&hx.Prop{
 		ID:      "C18",
-		Imports: "From Akita Require Import Lib.Base C18.Model C18.Exec.",
+		Imports: "From Akita Require Import Lib.Base C18.Model C18.Ideal C18.Exec.",
 		Rule: "For each of the twelve agents (built by its own Builder; support matrix read from the VerbSupport constructor its TestControlContract " +
 			"passes to RunContract and evaluated by the real memcontrolprotocol package): a directed legal life cycle (pause/enable, drain/invalidate/enable, " +
 			"reset, flush, an unknown verb) and random scripts of 1-5 phases drawn from {pause..enable with traffic queued meanwhile, drain..(flush)(invalidate)..enable, " +
@@ -248,7 +255,8 @@ func init() {
 			"idempotent repeats}, each phase surrounded by bursts of reads/writes/translations/moves over a few colliding lines/pages; the requester waits for " +
 			"acknowledgements in 2/3 of the phases; lower-module responses are delayed by a random cyclic pattern of 1..70 cycles; port buffers 1-6; random " +
 			"latencies/widths/MSHR/geometry. The confirmed write-back Pause->Flush history is always included. Non-trivial: >=3 control responses, >=3 data " +
-			"requests delivered and >=2 data responses.",
+			"requests delivered and >=2 data responses. Plus exact tick-level cases of the ideal memory controller (same scripts, Control buffers of 1-3): " +
+			"every tick's inputs and outputs are compared with Ideal.ideal_tick.",
 		Gen: gen, Run: run, Shrink: shrink,
 	})
 }
